@@ -9,27 +9,11 @@ package main
 
 import (
 	"fmt"
-	"path/filepath"
 	"sort"
 	"strings"
 
 	"golang.org/x/sys/unix"
 	"verifsim/sinot"
-)
-
-// fsnotify Op bits (documented values of the public constants; the four
-// unportable ones come from the export file at init).
-const (
-	mCreate uint32 = 1 << iota
-	mWrite
-	mRemove
-	mRename
-	mChmod
-)
-
-var (
-	mOpen, mRead, mCloseWrite, mCloseRead uint32
-	mDefaultOps                           = mCreate | mWrite | mRemove | mRename | mChmod
 )
 
 type mWatch struct {
@@ -90,22 +74,6 @@ func (e MEvent) String() string {
 		s += " (optional)"
 	}
 	return s
-}
-
-func opString(o uint32) string {
-	var p []string
-	for _, x := range []struct {
-		b uint32
-		n string
-	}{{mCreate, "CREATE"}, {mRemove, "REMOVE"}, {mWrite, "WRITE"}, {mOpen, "OPEN"}, {mRead, "READ"}, {mCloseWrite, "CLOSE_WRITE"}, {mCloseRead, "CLOSE_READ"}, {mRename, "RENAME"}, {mChmod, "CHMOD"}} {
-		if x.b != 0 && o&x.b != 0 {
-			p = append(p, x.n)
-		}
-	}
-	if len(p) == 0 {
-		return "[no events]"
-	}
-	return strings.Join(p, "|")
 }
 
 func newModel(recurse bool) *Model {
@@ -353,9 +321,6 @@ func (m *Model) Feed(r *sinot.Record) []MEvent {
 	}
 	return []MEvent{ev}
 }
-
-// cleanPath is the documented normalisation of an Add/Remove argument.
-func cleanPath(p string) string { return filepath.Clean(p) }
 
 // ApplyResult describes how an API call compares with the model.
 type ApplyResult struct {
